@@ -65,6 +65,41 @@ theorem sameConn_of_expected (c : Cfg) (i : Nat) (hk : c.keepValues = true) (he 
     sameConn c i = true := by
   simp [sameConn, noticeRoute_eq_callRoute c i hk he]
 
+theorem setMin_le (f : Nat → Option Nat) (i j v x : Nat) (h : f j = some x) : ∃ y, setMin f i v j = some y ∧ y ≤ x := by
+  unfold setMin
+  by_cases hj : j = i
+  · subst hj; simp only [if_true, h]; exact ⟨min x v, rfl, Nat.min_le_left _ _⟩
+  · simp only [hj, if_false]; exact ⟨x, h, Nat.le_refl _⟩
+
+theorem setMin_some (f : Nat → Option Nat) (i j v y : Nat) (h : setMin f i v j = some y) :
+    f j = some y ∨ (j = i ∧ y ≤ v ∧ (y = v ∨ f j = some y)) := by
+  unfold setMin at h
+  by_cases hj : j = i
+  · subst hj
+    cases hf : f j with
+    | none => simp [hf] at h; exact Or.inr ⟨rfl, by omega, Or.inl h.symm⟩
+    | some x =>
+      simp only [if_true, hf] at h
+      injection h with h
+      by_cases hx : x ≤ v
+      · left; rw [← h, Nat.min_eq_left hx]
+      · right; refine ⟨rfl, by omega, Or.inl ?_⟩; rw [← h]; omega
+  · simp [hj] at h; exact Or.inl h
+
+theorem setMin_eq_none (f : Nat → Option Nat) (i j v : Nat) (h : setMin f i v j = none) : f j = none ∧ j ≠ i := by
+  unfold setMin at h
+  by_cases hj : j = i
+  · subst hj; cases hf : f j <;> simp [hf] at h
+  · simp [hj] at h; exact ⟨h, hj⟩
+
+theorem setMin_none_iff (f : Nat → Option Nat) (i j v : Nat) : setMin f i v j = none ↔ (f j = none ∧ j ≠ i) := by
+  constructor
+  · exact setMin_eq_none f i j v
+  · intro ⟨h, hj⟩; simp [setMin, hj, h]
+
+theorem setMin_same_isSome (f : Nat → Option Nat) (i v : Nat) : (setMin f i v i).isSome = true := by
+  unfold setMin; cases f i <;> simp
+
 /-- `routeOpen` can only be lost as the log grows. -/
 theorem routeOpen_mono (c : Cfg) (m : MSt) (e : Ev) (i t : Nat) (h : routeOpen c m i t = false) :
     routeOpen c (mupd m e) i t = false := by
@@ -74,22 +109,19 @@ theorem routeOpen_mono (c : Cfg) (m : MSt) (e : Ev) (i t : Nat) (h : routeOpen c
   | oneShot k => simp [hr] at h
   | standalone => simpa [hr] using h
   | reqStream p =>
-    simp only [hr, Bool.and_eq_false_iff] at h ⊢
-    rcases h with h | h
-    · left
-      cases hf : m.fin p with
-      | none => simp [hf, optAll] at h
-      | some x =>
-        have : (mupd m e).fin p = some x := by
-          unfold mupd; cases e.k <;> simp [hf, setFirst_keeps _ _ _ _ _ hf]
-        rw [this]; rw [hf] at h; exact h
-    · right
-      cases hf : m.can p with
-      | none => simp [hf, optAll] at h
-      | some x =>
-        have : (mupd m e).can p = some x := by
-          unfold mupd; cases e.k <;> simp [hf, setFirst_keeps _ _ _ _ _ hf]
-        rw [this]; rw [hf] at h; exact h
+    simp only [hr] at h ⊢
+    cases hf : m.closed p with
+    | none => simp [hf, optAll] at h
+    | some x =>
+      rw [hf] at h
+      simp only [optAll, decide_eq_false_iff_not] at h
+      have : ∃ y, (mupd m e).closed p = some y ∧ y ≤ x := by
+        unfold mupd
+        cases e.k <;> first | exact ⟨x, hf, Nat.le_refl _⟩ | exact setMin_le _ _ _ _ _ hf
+      obtain ⟨y, hy, hle⟩ := this
+      rw [hy]
+      simp only [optAll, decide_eq_false_iff_not]
+      omega
 
 end Cancel
 
@@ -99,8 +131,8 @@ namespace Cancel
 abbrev M (s : St) : MSt := summ s.trace
 
 structure Inv (c : Cfg) (s : St) : Prop where
-  le_fin : ∀ i t, (M s).fin i = some t → t ≤ s.now
-  le_can : ∀ i x, (M s).can i = some x → x.1 ≤ s.now
+  le_closed : ∀ i t, (M s).closed i = some t → t ≤ s.now
+  closed_iff : ∀ i, (M s).closed i = none ↔ (s.req i ≠ .finished ∧ s.ctxDone i = none)
   beg_iff : ∀ i, ((M s).beg i).isSome = (s.req i == .running || s.req i == .finished)
   fin_iff : ∀ i, ((M s).fin i).isSome = (s.req i == .finished)
   can_eq : ∀ i, ((M s).can i).map (·.2) = s.ctxDone i
@@ -260,7 +292,7 @@ theorem inv_call {c : Cfg} {s s' : St} (hk : c.keepValues = true) (i : Nat) (I :
     have hd := dropped_mono ⟨.snd, i, s.now⟩ I
     have hg := good_emit hk I (.snd) i rfl
     destruct_inv I
-    constructor <;> simp only [M, emit, summ_snoc, mupd] at * <;> grind [upd, setFirst, enclRunning, setFirst_some]
+    constructor <;> simp only [M, emit, summ_snoc, mupd] at * <;> grind [upd, setFirst, enclRunning, setFirst_some, setMin_some, setMin_none_iff]
   · cases h
 
 theorem inv_start {c : Cfg} {s s' : St} (hk : c.keepValues = true) (i : Nat) (I : Inv c s) (h : step c s (.start i) = some s') : Inv c s' := by
@@ -271,7 +303,7 @@ theorem inv_start {c : Cfg} {s s' : St} (hk : c.keepValues = true) (i : Nat) (I 
     have hd := dropped_mono ⟨.beg, i, s.now⟩ I
     have hg := good_emit hk I (.beg) i rfl
     destruct_inv I
-    constructor <;> simp only [M, emit, summ_snoc, mupd] at * <;> grind [upd, setFirst, setFirst_some]
+    constructor <;> simp only [M, emit, summ_snoc, mupd] at * <;> grind [upd, setFirst, setFirst_some, setMin_some, setMin_none_iff]
   · cases h
 
 theorem inv_finish {c : Cfg} {s s' : St} (hk : c.keepValues = true) (i : Nat) (I : Inv c s) (h : step c s (.finish i) = some s') : Inv c s' := by
@@ -282,7 +314,7 @@ theorem inv_finish {c : Cfg} {s s' : St} (hk : c.keepValues = true) (i : Nat) (I
     have hd := dropped_mono ⟨.fin, i, s.now⟩ I
     have hg := good_emit hk I (.fin) i rfl
     destruct_inv I
-    constructor <;> simp only [M, emit, summ_snoc, mupd] at * <;> grind [upd, setFirst, setFirst_some]
+    constructor <;> simp only [M, emit, summ_snoc, mupd] at * <;> grind [upd, setFirst, setFirst_some, setMin_some, setMin_none_iff]
   · cases h
 
 theorem inv_cancel {c : Cfg} {s s' : St} (hk : c.keepValues = true) (i : Nat) (dl : Bool) (I : Inv c s) (h : step c s (.cancel i dl) = some s') : Inv c s' := by
@@ -293,7 +325,7 @@ theorem inv_cancel {c : Cfg} {s s' : St} (hk : c.keepValues = true) (i : Nat) (d
     have hd := dropped_mono ⟨.can dl, i, s.now⟩ I
     have hg := good_emit hk I (.can dl) i rfl
     destruct_inv I
-    constructor <;> simp only [M, emit, summ_snoc, mupd] at * <;> grind [upd, setFirst, setFirst_some]
+    constructor <;> simp only [M, emit, summ_snoc, mupd] at * <;> grind [upd, setFirst, setFirst_some, setMin_some, setMin_none_iff]
   · cases h
 
 theorem inv_deliver {c : Cfg} {s s' : St} (i : Nat) (I : Inv c s) (h : step c s (.deliver i) = some s') : Inv c s' := by
@@ -341,7 +373,7 @@ theorem inv_retOk {c : Cfg} {s s' : St} (hk : c.keepValues = true) (i : Nat) (I 
     have hd := dropped_mono ⟨.ret (.ok (payload c i)), i, s.now⟩ I
     have hg := good_emit hk I (.ret (.ok (payload c i))) i (evCheck_retOk c _ i _)
     destruct_inv I
-    constructor <;> simp only [M, emit, summ_snoc, mupd] at * <;> grind [upd, setFirst, setFirst_some]
+    constructor <;> simp only [M, emit, summ_snoc, mupd] at * <;> grind [upd, setFirst, setFirst_some, setMin_some, setMin_none_iff]
   · cases h
 
 theorem evCheck_retCtx {c : Cfg} {s : St} (I : Inv c s) (i : Nat) (dl : Bool) (h : s.ctxDone i = some dl) :
@@ -366,7 +398,7 @@ theorem inv_retCtx {c : Cfg} {s s' : St} (hk : c.keepValues = true) (i : Nat) (I
       have hd := dropped_mono ⟨.ret (.ctx dl), i, s.now⟩ I
       have hg := good_emit hk I (.ret (.ctx dl)) i (evCheck_retCtx I i dl hdl)
       destruct_inv I
-      constructor <;> simp only [M, emit, summ_snoc, mupd] at * <;> grind [upd, setFirst, setFirst_some]
+      constructor <;> simp only [M, emit, summ_snoc, mupd] at * <;> grind [upd, setFirst, setFirst_some, setMin_some, setMin_none_iff]
     · cases h
   · cases h
 
@@ -392,7 +424,7 @@ theorem inv_notice {c : Cfg} {s s' : St} (hk : c.keepValues = true) (i : Nat) (I
         have hd := dropped_mono ⟨.hc, i, s.now⟩ I
         have hg := good_emit hk I .hc i (evCheck_hc I i hp.1)
         destruct_inv I
-        constructor <;> simp only [M, emit, summ_snoc, mupd] at * <;> grind [upd, setFirst, setFirst_some]
+        constructor <;> simp only [M, emit, summ_snoc, mupd] at * <;> grind [upd, setFirst, setFirst_some, setMin_some, setMin_none_iff]
       · simp only [hrun, if_false]
         destruct_inv I
         constructor <;> simp only [M] at * <;> grind [upd]
@@ -434,30 +466,20 @@ theorem drop_reason {c : Cfg} {s : St} (hk : c.keepValues = true) (I : Inv c s) 
         obtain ⟨dl, hres⟩ := (I.notice_iff i).mp (by rw [hp]; simp)
         have hidle := I.issued i (by rw [hres]; simp)
         have hrun := I.encl_run i p hidle (callRoute_reqStream hr)
-        rcases h with h | h
-        · -- the enclosing handler has finished
-          left
-          have hfin : s.req p = .finished := by
-            rcases hrun with h' | h'
+        have hcl : (M s).closed p ≠ none := by
+          intro hn
+          have := (I.closed_iff p).mp hn
+          rcases h with h | h
+          · rcases hrun with h' | h'
             · simp [h'] at h
-            · exact h'
-          have hf := I.fin_iff p
-          simp only [hfin, beq_self_eq_true] at hf
-          cases hx : (M s).fin p with
-          | none => rw [hx] at hf; cases hf
-          | some t =>
-            have := I.le_fin p t hx
-            simp only [optAll, decide_eq_false_iff_not]
-            omega
-        · -- the enclosing request was abandoned by its caller
-          right
-          have hc := I.can_eq p
-          cases hx : (M s).can p with
-          | none => rw [hx] at hc; simp at hc; rw [← hc] at h; simp at h
-          | some x =>
-            have := I.le_can p x hx
-            simp only [optAll, decide_eq_false_iff_not]
-            omega
+            · exact this.1 h'
+          · rw [this.2] at h; simp at h
+        cases hx : (M s).closed p with
+        | none => exact absurd hx hcl
+        | some t =>
+          have := I.le_closed p t hx
+          simp only [optAll, decide_eq_false_iff_not]
+          omega
     · right; left; simpa using hex
 
 theorem inv_drop {c : Cfg} {s s' : St} (hk : c.keepValues = true) (i : Nat) (I : Inv c s) (h : step c s (.drop i) = some s') : Inv c s' := by
